@@ -129,6 +129,9 @@ def exec_characterize(r):
         ent = guarded(lambda: base.characterize(record(r["seq"])))
         ev["res"]["cls"] = type(ent).__name__
         ev["res"]["valid"] = bool(ent.is_valid())
+    except RuntimeError as ex:
+        ev["res"]["exc"] = "RuntimeError"
+        ev["res"]["valid"] = False
     except BaseException as ex:  # noqa
         ev["res"]["exc"] = type(ex).__name__
         ev["res"]["valid"] = False
